@@ -229,12 +229,13 @@ Section Driver.
     | _ => None
     end.
 
+  (** since c8709a7 glob matches that are not files (directories named [*.mamba]) are skipped *)
   Definition glob_mamba (fs : FS) (src : path) : list path :=
     sort_paths
       (flat_map (fun e : path * node =>
-                   match under src (fst e) with
-                   | Some r => if is_mamba (file_name r) then [r] else []
-                   | None => []
+                   match under src (fst e), snd e with
+                   | Some r, File _ => if is_mamba (file_name r) then [r] else []
+                   | _, _ => []
                    end) fs).
 
   Definition relative_files (fs : FS) (src : path) : list path :=
@@ -356,6 +357,16 @@ Section Driver.
         end
     end.
 
+  (** since 2d1bc77: when the shared context cannot be built, every file whose OWN context
+      ([Context::try_from] of that file alone) fails contributes its errors, with its path and source,
+      in file order *)
+  Definition ctx_blame (asts : list (ast * option path)) : list err :=
+    flat_map (fun ap : ast * option path =>
+                match build_ctx [fst ap] with
+                | Err ms => map (EStage SCtx (snd ap)) ms
+                | Ok _ => []
+                end) asts.
+
   Definition mamba_to_python (annotate : bool) (source : list input) (source_dir : path)
     : res (list string) (list err) :=
     let source := map (fun sp : input => (fst sp, option_map (strip_prefix source_dir) (snd sp))) source in
@@ -363,7 +374,11 @@ Section Driver.
     | (_, e :: es) => Err (e :: es)
     | (asts, []) =>
         match build_ctx (map fst asts) with
-        | Err ms => Err (map (EStage SCtx None) ms)        (* no with_source: neither path nor text *)
+        | Err ms =>
+            match ctx_blame asts with
+            | [] => Err (map (EStage SCtx None) ms)   (* fallback: no file fails alone; no path, no text *)
+            | e :: es => Err (e :: es)
+            end
         | Ok ctx =>
             let lk := lookups_of ctx in
             match check_all lk asts with
@@ -471,6 +486,11 @@ Definition enumeration := forall A : Type, list A -> list A.
 
 Definition w_build_ctx (W : world) (asts : list (w_ast W)) :=
   build_ctx (w_msg W) (w_centry W) (w_dentry W) (w_fentry W) (w_c_key W) (w_f_key W) (w_d_name W)
+    (w_any W) (w_prim_c W) (w_std_c W) (w_prim_d W) (w_std_d W) (w_prim_f W) (w_std_f W)
+    (w_ast W) (w_decls_of W) asts.
+
+Definition w_ctx_blame (W : world) (asts : list (w_ast W * option path)) : list (err (w_msg W)) :=
+  ctx_blame (w_msg W) (w_centry W) (w_dentry W) (w_fentry W) (w_c_key W) (w_f_key W) (w_d_name W)
     (w_any W) (w_prim_c W) (w_std_c W) (w_prim_d W) (w_std_d W) (w_prim_f W) (w_std_f W)
     (w_ast W) (w_decls_of W) asts.
 
